@@ -618,6 +618,9 @@ def run(tier: str) -> int:
     items += [(PLUGRAW_BASE + k, tier) for k in kit.sample_indices(PROP, "plugraw", FAMILY["plugraw"], n_pr)]
     if os.environ.get("VERIF_C04_ONLY") == "plug":
         items = [it for it in items if it[0] >= PLUGRAW_BASE or (it[0] < 100000 and gen(it[0], tier).get("plug"))]
+    if os.environ.get("VERIF_C04_MEMBERS"):  # development aid: only these members of family seq
+        want = {int(x) for x in os.environ["VERIF_C04_MEMBERS"].split(",")}
+        items = [(k, tier) for k in sorted(want)]
     known = kit.load_known_findings(PROP)
     # determinism self-test: the same scenarios again must give the same plans, faults and verdicts
     n_det = 2 if tier == "quick" else 24
